@@ -196,49 +196,89 @@ def me6_errors(ctx, rep):
         rep.check(len(errs) == (1 if closed else 0), R, "counted-iff-rejected-after-close", ctx.where(d), "path [%s]: closed=%s, error_occurred calls=%d" % (p.describe(), closed, len(errs)), "path [%s]: closed=%s but %d error_occurred call(s)" % (p.describe(), closed, len(errs)))
 
 
+def _counter_fields(ctx):
+    """event -> (method body, [(fetch_add site, field)]) for the store's metrics implementation"""
+    A = ctx.A
+    out = {}
+    for name in EVENT_COUNTERS:
+        try:
+            m = A.method(A.name_of(A.metrics_adt), name, A.metrics_trait)
+        except AnchorMissing:
+            continue
+        adds = []
+        for s in ctx.prog.sites(m):
+            if s.ck == ATOMIC + "fetch_add":
+                t = strip_wrap(ctx.prog.bp(m).arg_term(s.bb, 0))
+                if t[0] == "field" and t[1] == ("param", 1):
+                    adds.append((s, t[2]))
+        out[name] = (m, adds)
+    return out
+
+
 def me7_monotone(ctx, rep):
     R = "ME7"
     A = ctx.A
-    cm = A.adt_by_name("CountMetrics")
+    cf = _counter_fields(ctx)
+    # which counter field belongs to which event: the field the event's method adds to on every
+    # path (time bookkeeping adds to other fields; those are not event counters)
+    event_field = {}
+    for name in EVENT_COUNTERS:
+        if name not in cf:
+            rep.anchor_missing(R, "metrics method " + name)
+            continue
+        m, adds = cf[name]
+        rep.note_fn(m.path)
+        must = _mustpass(ctx, m)
+        sure = [(s, f) for (s, f) in adds if s.bb in must and not ctx.prog.cfg(m).in_cycle(s.bb)]
+        # prefer the same-named field; otherwise the unique unconditional add whose amount is 1 / count
+        own = [(s, f) for (s, f) in sure if f == name]
+        if not own:
+            cand = []
+            for s, f in sure:
+                amt = ctx.prog.bp(m).arg_term(s.bb, 1)
+                if (amt[0] == "const" and str(amt[1]).startswith("1_")) or (amt[0] == "param" and m.local_ty(amt[1]) == "usize"):
+                    cand.append((s, f))
+            own = cand if len(cand) == 1 else []
+        ok1 = len(own) == 1
+        rep.check(ok1, R, "adds-to-own-counter:%s" % name, ctx.where(m), "%s performs exactly one unconditional fetch_add on its counter%s" % (name, (" `%s`" % own[0][1]) if own else ""), "%s: no single unconditional fetch_add on an event counter (adds: %s)" % (name, [f for s, f in adds]))
+        if own:
+            s0, f0 = own[0]
+            event_field[name] = f0
+            amt = ctx.prog.bp(m).arg_term(s0.bb, 1)
+            good = (amt[0] == "const" and str(amt[1]).startswith("1_")) or (amt[0] == "param" and m.local_ty(amt[1]) == "usize")
+            rep.check(good, R, "adds-one-or-its-count:%s" % name, s0.where, "adds %s" % term_str(amt), "adds %s" % term_str(amt))
+            twice = [f for s, f in adds if f == f0]
+            rep.check(len(twice) == 1, R, "adds-once:%s" % name, s0.where, "one add per call", "%d adds to `%s` per call" % (len(twice), f0))
+    inv = {}
+    for e, f in event_field.items():
+        inv.setdefault(f, []).append(e)
+    for f, es in inv.items():
+        rep.check(len(es) == 1, R, "counter-not-shared:%s" % "+".join(sorted(es)), "", "counter `%s` belongs to one event" % f, "events %s add to the same counter `%s`" % (sorted(es), f))
+    counters = set(event_field.values())
+    ctx._event_field = event_field
     n_add = 0
-    per_method = {}
     for s in ctx.prog.sites():
         if not s.ck.startswith(ATOMIC):
             continue
         op = s.ck.split("::")[-1]
         t = strip_wrap(ctx.prog.bp(s.body).arg_term(s.bb, 0)) if s.term["args"] else ("opaque", "?")
         fld = t[2] if t[0] == "field" else None
-        if fld not in EVENT_COUNTERS:
+        if fld not in counters:
             continue
         fn = short(s.body.path)
         if op in ("load", "new"):
             continue
         if op == "fetch_add":
             n_add += 1
-            per_method.setdefault(s.body.path, []).append((s, fld))
+            ev = [e for e, f in event_field.items() if f == fld]
+            owner = cf[ev[0]][0].path if ev and ev[0] in cf else None
+            rep.check(s.body.path == owner, R, "counter-fed-only-by-its-event:%s" % (ev[0] if ev else fld), s.where, "`%s` is only added to by its own event method" % fld, "`%s` is also added to in %s" % (fld, fn))
             continue
-        # any other operation can decrease / reset a counter: only in a function nobody calls
         callers = ctx.prog.callers(s.body)
         virt = [x for x in ctx.prog.sites() if x.fn and x.fn.get("krate") == ctx.prog.facts.crate and x.ck.split("::")[-1] == s.body.j.get("name") and ctx.prog.callee_body(x) is None and x.body.path != s.body.path]
-        rep.check(not callers and not virt and not s.body.j.get("impl_trait"), R, "non-monotone-op-unreachable:%s:%s:%s" % (op, fld, fn), s.where, "%s on `%s` only in %s, which has no caller in the library" % (op, fld, fn), "%s on event counter `%s` in %s, which is called/callable: the counter can decrease" % (op, fld, fn))
+        ev = [e for e, f in event_field.items() if f == fld]
+        rep.check(not callers and not virt and not s.body.j.get("impl_trait"), R, "non-monotone-op-unreachable:%s:%s:%s" % (op, ev[0] if ev else fld, fn), s.where, "%s on `%s` only in %s, which has no caller in the library" % (op, fld, fn), "%s on event counter `%s` in %s, which is called/callable: the counter can decrease" % (op, fld, fn))
     rep.floor(R, "fetch_add sites on event counters", n_add, 9)
-    # each Metrics method of CountMetrics adds to the counter of its own name
-    for name in EVENT_COUNTERS:
-        try:
-            m = A.method("CountMetrics", name, "Metrics")
-        except AnchorMissing as e:
-            rep.anchor_missing(R, e.what)
-            continue
-        rep.note_fn(m.path)
-        adds = [(s, f) for (s, f) in per_method.get(m.path, [])]
-        own = [(s, f) for (s, f) in adds if f == name]
-        foreign = [(s, f) for (s, f) in adds if f != name]
-        ok1 = len(own) == 1 and not foreign and not ctx.prog.cfg(m).in_cycle(own[0][0].bb) and own[0][0].bb in _mustpass(ctx, m)
-        rep.check(ok1, R, "adds-to-own-counter:%s" % name, ctx.where(m), "%s performs exactly one fetch_add on `%s` on every path" % (name, name), "%s: %d fetch_add on `%s`, on other event counters: %s" % (name, len(own), name, [f for s, f in foreign]))
-        if own:
-            amt = ctx.prog.bp(m).arg_term(own[0][0].bb, 1)
-            good = (amt[0] == "const" and str(amt[1]).startswith("1_")) or (amt[0] == "param" and m.local_ty(amt[1]) == "usize")
-            rep.check(good, R, "adds-one-or-its-count:%s" % name, own[0][0].where, "adds %s" % term_str(amt), "adds %s" % term_str(amt))
 
 
 def _mustpass(ctx, body):
@@ -252,14 +292,20 @@ def _mustpass(ctx, body):
 
 
 def me8_snapshot(ctx, rep):
+    """every event field of the (public) snapshot reports the counter that the event of the same
+    name adds to"""
     R = "ME8"
     A = ctx.A
-    snap = A.adt_by_name("MetricsSnapshot")
     hits = [b for b in ctx.prog.bodies if b.j.get("name") == "from" and (b.j.get("impl_adt") or "").endswith("MetricsSnapshot")]
-    if not rep.exact(R, "From<&CountMetrics> for MetricsSnapshot", len(hits), 1):
+    if not rep.exact(R, "From<&metrics> for MetricsSnapshot", len(hits), 1):
         return
     b = hits[0]
     rep.note_fn(b.path)
+    ef = getattr(ctx, "_event_field", None)
+    if ef is None:
+        from mirq.report import Report
+        me7_monotone(ctx, Report("tmp"))
+        ef = getattr(ctx, "_event_field", {})
     p = ctx.paths(b).paths[0]
     rt = p.ret
     if not (rt[0] == "agg" and len(rt) > 3):
@@ -268,14 +314,15 @@ def me8_snapshot(ctx, rep):
     calls = {e.result: e for e in p.calls()}
     n = 0
     for f, v in zip(rt[3], rt[2]):
+        if f not in ef:
+            continue  # time-valued / queue fields: not decided
         e = calls.get(v)
-        good = e is not None and e.ck == ATOMIC + "load" and strip_wrap(e.args[0]) == ("field", ("param", 1), f)
+        good = e is not None and e.ck == ATOMIC + "load" and strip_wrap(e.args[0]) == ("field", ("param", 1), ef[f])
         n += 1
-        rep.check(good, R, "field:%s" % f, ctx.where(b, e.bb) if e is not None else ctx.where(b), "snapshot.%s = load(metrics.%s)" % (f, f), "snapshot.%s = %s" % (f, (e.ck.split("::")[-1] + "(" + term_str(e.args[0]) + ")") if e is not None else term_str(v)))
-    rep.floor(R, "snapshot fields", n, 21)
+        rep.check(good, R, "field:%s" % f, ctx.where(b, e.bb) if e is not None else ctx.where(b), "snapshot.%s = load(the counter `%s` that %s() adds to)" % (f, ef[f], f), "snapshot.%s = %s, not the counter of %s()" % (f, (e.ck.split("::")[-1] + "(" + term_str(e.args[0]) + ")") if e is not None else term_str(v), f))
+    rep.floor(R, "snapshot event fields", n, 9)
     gm = A.method("StoreImpl", "get_metrics")
     pp = ctx.paths(gm).paths[0]
-    conv = [e for e in pp.calls() if e.site is not None and ctx.prog.callee_body(e.site) is not None and ctx.prog.callee_body(e.site).path == b.path or e.ck in ("std::convert::Into::into", "std::convert::From::from")]
     arg_ok = any(strip_wrap(a) == ("field", ("param", 1), A.f_metrics) for e in pp.calls() for a in e.args)
     rep.check(arg_ok, R, "get_metrics-snapshots-own-counters", ctx.where(gm), "get_metrics converts the store's own counters", "get_metrics does not read the store's metrics field")
 
